@@ -40,11 +40,17 @@ fn c06_id_alloc_unique() {
     assert!(n2 >= n && n2 <= W);
     let mut after = [0u64; W];
     let mut i = 0;
-    while i < n2 { after[i] = a.bits[i]; i += 1; }
+    while i < n2 {
+        after[i] = a.bits[i];
+        i += 1;
+    }
     assert!(live(&after, n2, local), "C06.allocated_id_is_live");
     let probe: u32 = kani::any();
     kani::assume(probe < (W as u32) * 64 && probe != local);
-    assert!(live(&after, n2, probe) == live(&words, n, probe), "C06.alloc_changes_no_other_id");
+    assert!(
+        live(&after, n2, probe) == live(&words, n, probe),
+        "C06.alloc_changes_no_other_id"
+    );
     // least free id
     let lower: u32 = kani::any();
     kani::assume(lower < local);
@@ -75,11 +81,17 @@ fn c06_id_dealloc_exact() {
     assert!(n2 <= n);
     let mut after = [0u64; W];
     let mut i = 0;
-    while i < n2 { after[i] = a.bits[i]; i += 1; }
+    while i < n2 {
+        after[i] = a.bits[i];
+        i += 1;
+    }
     assert!(!live(&after, n2, local), "C06.deallocated_id_is_free");
     let probe: u32 = kani::any();
     kani::assume(probe < (W as u32) * 64 && probe != local);
-    assert!(live(&after, n2, probe) == live(&words, n, probe), "C06.dealloc_changes_no_other_id");
+    assert!(
+        live(&after, n2, probe) == live(&words, n, probe),
+        "C06.dealloc_changes_no_other_id"
+    );
     assert!(n2 == 0 || a.bits[n2 - 1] != 0, "C06.no_trailing_zero_word");
     kani::cover!(n2 < n, "trailing words were trimmed");
     core::mem::forget(a);
@@ -110,10 +122,20 @@ fn c12_covering_key_v4() {
     let len: u8 = kani::any();
     kani::assume(len <= 32);
     let key = RpkiTable::covering_key(&a.to_be_bytes(), len);
-    assert!(key.len() == 5 && key[4] == len, "C12.covering_key_ends_with_length");
+    assert!(
+        key.len() == 5 && key[4] == len,
+        "C12.covering_key_ends_with_length"
+    );
     let got = u32::from_be_bytes([key[0], key[1], key[2], key[3]]);
-    let want = if len == 0 { 0 } else { (a >> (32 - len as u32)) << (32 - len as u32) };
-    assert!(got == want, "C12.covering_key_is_the_address_with_host_bits_cleared");
+    let want = if len == 0 {
+        0
+    } else {
+        (a >> (32 - len as u32)) << (32 - len as u32)
+    };
+    assert!(
+        got == want,
+        "C12.covering_key_is_the_address_with_host_bits_cleared"
+    );
     kani::cover!(len % 8 != 0, "length inside an octet");
     core::mem::forget(key);
 }
@@ -126,13 +148,26 @@ fn c12_covering_key_v6() {
     let len: u8 = kani::any();
     kani::assume(len <= 128);
     let key = RpkiTable::covering_key(&a.to_be_bytes(), len);
-    assert!(key.len() == 17 && key[16] == len, "C12.covering_key_ends_with_length");
+    assert!(
+        key.len() == 17 && key[16] == len,
+        "C12.covering_key_ends_with_length"
+    );
     let mut b = [0u8; 16];
     let mut i = 0;
-    while i < 16 { b[i] = key[i]; i += 1; }
+    while i < 16 {
+        b[i] = key[i];
+        i += 1;
+    }
     let got = u128::from_be_bytes(b);
-    let want = if len == 0 { 0 } else { (a >> (128 - len as u32)) << (128 - len as u32) };
-    assert!(got == want, "C12.covering_key_is_the_address_with_host_bits_cleared");
+    let want = if len == 0 {
+        0
+    } else {
+        (a >> (128 - len as u32)) << (128 - len as u32)
+    };
+    assert!(
+        got == want,
+        "C12.covering_key_is_the_address_with_host_bits_cleared"
+    );
     kani::cover!(len % 8 != 0, "length inside an octet");
     core::mem::forget(key);
 }
